@@ -399,17 +399,21 @@ static inline unsigned long np_moveaxis_at(unsigned long n, const long *S, const
       }
     }
   /* for dest, src in sorted(zip(destination, source)): order.insert(dest, src)
-   * (the destinations are pairwise distinct, so the sorted pairs are met by visiting the destination values in ascending order) */
-  for (unsigned long v = 0; v < CAP; v++)
+   * (the destinations are pairwise distinct, so the sorted pairs are met by visiting the destination values v in ascending order;
+   *  at most one pair has destination v) */
+  for (unsigned long v = 0; v < CAP; v++) {
+    int hit = 0; unsigned long sv = 0UL;
     for (unsigned long t = 0; t < CAP; t++)
-      if (t < m && NORM(D[t], n) == v) {
-        unsigned long pos = v < len ? v : len;              /* list.insert clamps the position to len(list) */
-        for (unsigned long j = CAP; j > 0UL; j--)
-          if (j > pos && j <= len) order[j] = order[j - 1UL];
-        for (unsigned long j = 0; j <= CAP; j++)
-          if (j == pos) order[j] = NORM(S[t], n);
-        len++;
-      }
+      if (t < m && NORM(D[t], n) == v) { hit = 1; sv = NORM(S[t], n); }
+    if (hit) {
+      unsigned long pos = v < len ? v : len;                /* list.insert clamps the position to len(list) */
+      for (unsigned long j = CAP; j > 0UL; j--)
+        if (j > pos && j <= len) order[j] = order[j - 1UL];
+      for (unsigned long j = 0; j <= CAP; j++)
+        if (j == pos) order[j] = sv;
+      len++;
+    }
+  }
   for (unsigned long j = 0; j <= CAP; j++)
     if (j == k) r = order[j];
   return r;
